@@ -569,3 +569,7 @@ def run(repo: Repo, rep: Report, tier: str) -> None:
     n = roundup_rule(repo, rep, "C04.R4")
     rep.floor("C04.R4", "round-up sites", n, 11)
     size_source_rule(repo, rep, "C04.R5")
+    from .c18 import align_flag_rule, offsets_before_compile_rule
+
+    align_flag_rule(repo, rep, "C04.R6")
+    offsets_before_compile_rule(repo, rep, "C04.R7")
